@@ -6,6 +6,7 @@ import json
 import os
 import pickle
 import random
+import re
 import shutil
 import tempfile
 import types
@@ -47,7 +48,7 @@ RULE = ('value case = one described serializable value (primitives incl. special
         'codecs (to_json/from_json, to_json_str/from_json_str, a file of the standard and of '
         'the in-memory file system written by pg.save/Symbolic.save (new path or overwrite) or '
         'as a record of open_jsonl/open_sequence (new file or append), pickle, copy.deepcopy; '
-        'the JSON codecs with and without hide_default_values) '
+        'the string form with and without hide_default_values) '
         'with equality (NaN-aware; functions carried as code: same code, same defaults, same '
         'result of a call that relies on the defaults; values with a user-defined equality: '
         'member by member / by type and attributes against the value built from the same '
@@ -156,9 +157,11 @@ def run_codec(codec, v, d, variant=0):
   sym = isinstance(v, pg.Symbolic)
   # bit 4: members that have the default value of their field are left out of
   # the JSON (the schema puts them back on load)
+  # (string form only: the plain object form decides what the other codecs,
+  # which are layered over it, are spared)
   opts = {'hide_default_values': True} if variant & HIDE_DEFAULTS else {}
   if codec == 'json':
-    j = v.to_json(**opts) if (sym and variant & 1) else pg.to_json(v, **opts)
+    j = v.to_json() if (sym and variant & 1) else pg.to_json(v)
     return pg.from_json(j, **kw)
   if codec == 'json-str':
     if sym and variant & 1:
@@ -703,13 +706,11 @@ def value_case(ctx, i):
     ctx.label = None
     if problems and codec == 'json':
       failed_json = True
-    if problems and codec == 'json-str':
-      failed_str = True
-    if codec in ('json', 'json-str') and variant & HIDE_DEFAULTS:
+    if codec == 'json-str' and variant & HIDE_DEFAULTS:
       c['roundtrips_hiding_default_values'] += 1
     for clause, detail in problems:
       var, label = variant, codec
-      if codec in ('json', 'json-str') and variant & HIDE_DEFAULTS:
+      if codec == 'json-str' and variant & HIDE_DEFAULTS:
         # does it take the option? (the same round trip without it)
         try:
           plain = [cl for cl, _ in check(codec, d, family, None, variant & ~HIDE_DEFAULTS, wseed)
@@ -720,6 +721,8 @@ def value_case(ctx, i):
           var = variant & ~HIDE_DEFAULTS
         else:
           label = codec + '+hide_default_values'
+      if codec == 'json-str' and '+' not in label:
+        failed_str = True       # (the plain string form fails: files are spared)
       def observed(cand, clause=clause, codec=codec, var=var):
         """Clauses of the same group that `cand` shows with this codec."""
         try:
@@ -732,12 +735,17 @@ def value_case(ctx, i):
       # inside an opaque member a changed type shows up as inequality: the
       # clause reported is the one the minimal value shows by itself
       clause = (observed(small) or [clause])[0]
+      kind = S.kind(small)
+      if '+' in label:
+        # every way of giving a field a default value (default, noneable,
+        # frozen, defaults of members) is the same to the option
+        kind = re.sub(r'\+(none|default|frozen)', '', kind)
       ctx.violation(
-          clause, f'{label}/{S.kind(small)}',
+          clause, f'{label}/{kind}',
           printable(f'{detail}\nvalue: {S.show(d):.600}\nminimal: {S.show(small):.300}'),
           {'family': family, 'desc': d, 'minimal': small, 'codec': codec,
            'variant': var})
-      summary[f'{clause}:{codec}'] = S.kind(small)
+      summary[f'{clause}:{label}'] = kind
   if not failed_json:
     ctx.label = 'json/reload'
     found = reload_check(d, c, variant)
